@@ -499,6 +499,56 @@ def r_grade_branches(rep, f):
         rep.inconc("R-GRADE-BRANCH", "R-GRADE-BRANCH:floor", "only %d branch comparisons graded" % total)
 
 
+def r_tol_route(rep, f):
+    """solve_ivp hands Options::rtol to the stepper parameter called rtol and Options::atol to atol, for every method:
+    the error controllers compute atol + rtol*|y| from what they are given, so swapped arguments scale the wrong term"""
+    sv = f.bodies.get("solve::solve_ivp::solve_ivp")
+    if sv is None:
+        rep.inconc("R-TOL-ROUTE", "R-TOL-ROUTE:solve_ivp", "solve_ivp not found")
+        return
+    rep.fn(sv["def"])
+    n = 0
+    for mod, ty in SOLVERS:
+        d = solve_fn(mod, ty)
+        cb = f.bodies.get(d)
+        if cb is None:
+            continue
+        pnames = [p_.get("name") for p_ in cb.get("params", [])]
+        if "rtol" not in pnames or "atol" not in pnames:
+            continue
+        calls = [c for c in tast.find(sv["body"], lambda z: z.get("k") in ("MethodCall", "Call") and z.get("def") == d)]
+        for c in calls:
+            n += 1
+            args = ([c["recv"]] if c.get("k") == "MethodCall" else []) + list(c["args"])
+            key = "R-TOL-ROUTE:solve_ivp:%s" % ty
+            probs = []
+            for want in ("rtol", "atol"):
+                idx = pnames.index(want)
+                if idx >= len(args):
+                    probs.append("argument for `%s` not found" % want)
+                    continue
+                a = args[idx]
+                src = a
+                for _ in range(3):
+                    while src.get("k") in ("AddrOf", "DropTemps", "Paren") or (src.get("k") == "MethodCall" and src.get("name") in ("clone", "to_owned", "into") and not src.get("args")):
+                        src = src["e"] if src.get("k") != "MethodCall" else src["recv"]
+                    if src.get("k") == "Path" and src.get("res") == "local":
+                        lets = tast.find(sv["body"], lambda z: z.get("k") == "Let" and z["pat"].get("k") == "PBind" and z["pat"].get("id") == src.get("id") and z.get("init") is not None)
+                        if len(lets) == 1:
+                            src = lets[0]["init"]
+                            continue
+                    break
+                fields = [q.get("name") for q in tast.find(src, lambda z: z.get("k") == "Field" and (z.get("fdef") or "").startswith("solve::options::Options::"))]
+                if fields != [want]:
+                    probs.append("the stepper's `%s` receives `%s` (Options fields: %s)" % (want, tast.render(a)[:40], fields or "none"))
+            if probs:
+                rep.violation("R-TOL-ROUTE", key, "; ".join(probs), c.get("sp"))
+            else:
+                rep.ok("R-TOL-ROUTE", key, "Options::rtol -> rtol, Options::atol -> atol")
+    if n < 5:
+        rep.inconc("R-TOL-ROUTE", "R-TOL-ROUTE:floor", "only %d stepper calls with tolerances found in solve_ivp (expected 5)" % n)
+
+
 def r_grade_hinit(rep, f):
     fn = "methods::hinit"
     b = f.bodies.get(fn)
@@ -696,6 +746,23 @@ def r_parity(rep, f):
         except rk.AnalysisError as e:
             rep.inconc("R-PARITY", key, str(e))
             continue
+        # the iteration after a rejected one: flags set to true where a step is rejected (`reject = true`) are false in the
+        # state the analysis starts from, so the code they guard is analysed in a second pass with the flag assumed true
+        body_ = f.body(fn)
+        rej_flags = set()
+        hk0 = variants[0][2] if variants else None
+        acc_if = getattr(hk0, "accept_if", None)
+        if acc_if is not None:
+            rej_branch = acc_if.get("else") if getattr(hk0, "accept_branch", "then") == "then" else acc_if.get("then")
+            if rej_branch is not None:
+                for a_ in tast.find(rej_branch, lambda z: z.get("k") == "Assign" and z["l"].get("k") == "Path" and z["l"].get("ty") == "bool" and z["r"].get("k") == "Lit" and str(z["r"].get("v")).lower() == "true"):
+                    rej_flags.add(a_["l"]["id"])
+        if rej_flags:
+            try:
+                variants = list(variants) + [("after-reject," + t_, s_, h_) for t_, s_, h_ in
+                                             rk.analyse_variants(f, fn, head_assume={k_: Poly.atom("true") for k_ in sorted(rej_flags)})]
+            except rk.AnalysisError:
+                pass
         probs = {}
         n = 0
         for tag, sx, hk in variants:
